@@ -65,6 +65,25 @@ func c06pair(c *Ctx, s1, e1, s2, e2 gdate) {
 	x := gedcom.NewDateRange(s1.Date(), e1.Date())
 	y := gedcom.NewDateRange(s2.Date(), e2.Date())
 	r := x.Compare(y)
+	// the comparison is one of day intervals: about / before / after constraints on the endpoints
+	// (every combination over the evaluated pairs, chosen from the pair's own hash) must not change it
+	{
+		h := uint32(2166136261)
+		for _, ch := range []byte(s1.String() + e1.String() + s2.String() + e2.String()) {
+			h = (h ^ uint32(ch)) * 16777619
+		}
+		cs := [4]gedcom.DateConstraint{gedcom.DateConstraint(h % 4), gedcom.DateConstraint((h >> 2) % 4),
+			gedcom.DateConstraint((h >> 4) % 4), gedcom.DateConstraint((h >> 6) % 4)}
+		d := [4]gedcom.Date{s1.Date(), e1.Date(), s2.Date(), e2.Date()}
+		for i := range d {
+			d[i].Constraint = cs[i]
+		}
+		if rc := gedcom.NewDateRange(d[0], d[1]).Compare(gedcom.NewDateRange(d[2], d[3])); rc != r {
+			c.Oracle("", "date constraints (Abt./Bef./Aft.) on the endpoints change the interval relation",
+				map[string]interface{}{"x": s1.String() + " .. " + e1.String(), "y": s2.String() + " .. " + e2.String(),
+					"constraints": fmt.Sprint(cs)}, relShort(rc), relShort(r))
+		}
+	}
 	name := relShort(r)
 	obs := fmt.Sprintf("%s %s%s%s", name, bit(r.IsEqual()), bit(r.IsPartiallyEqual()), bit(r.IsNotEqual()))
 	req := fmt.Sprintf("cmp %s %s %s %s", s1, e1, s2, e2)
